@@ -295,7 +295,17 @@ func c09Strata() []*gast.Grammar {
 	inv := func(s string) *gast.Expr { return gast.Cl(&gast.ClassSpec{Chars: []rune(s), Inverted: true}) }
 	act := func(e *gast.Expr, id int) *gast.Expr { return gast.A(e, id, mon.Spec{R: 2}) }
 	word := func() *gast.Expr { return gast.Plus(gast.Cl(gast.Chars("ab"))) }
+	rng09 := [][2]rune{{'a', 'z'}}
 	return []*gast.Grammar{
+		// "anything but" idioms: a negative lookahead over a terminal (written in place or through a leaf
+		// rule), directly followed by the any matcher - plain, inverted, caseless, Unicode-class and
+		// literal operands; an optimizer that fuses the pair into one class must get each of them right
+		mk(r("S", gast.S(gast.Plus(gast.S(gast.NotE(gast.Ref("Delim")), gast.Dot())), gast.Star(gast.Dot()))), r("Delim", gast.Cl(&gast.ClassSpec{Chars: []rune("0_"), Ranges: rng09, Inverted: true}))),
+		mk(r("S", gast.S(act(gast.Plus(gast.S(gast.NotE(gast.Cl(&gast.ClassSpec{Ranges: rng09, Inverted: true})), gast.Dot())), 1), gast.Star(gast.S(gast.NotE(gast.Cl(&gast.ClassSpec{Ranges: rng09})), gast.Dot())), gast.Star(gast.Dot())))),
+		mk(r("S", gast.Star(gast.C(act(gast.S(gast.NotE(gast.L("a")), gast.Dot()), 1), gast.S(gast.NotE(gast.Li("B")), gast.Dot()), gast.Dot())))),
+		mk(r("S", gast.Star(gast.C(gast.S(gast.NotE(gast.Cl(&gast.ClassSpec{Chars: []rune("k"), Inverted: true, IgnoreCase: true})), gast.Dot()), gast.S(gast.NotE(gast.Cl(&gast.ClassSpec{UClasses: []string{"Lu"}, Inverted: true})), gast.Dot()), gast.S(gast.NotE(gast.Ref("D2")), gast.Dot()), gast.L("-")))),
+			r("D2", gast.C(gast.L(","), gast.L(";")))),
+		mk(r("S", gast.Star(gast.C(gast.S(gast.AndE(gast.Cl(&gast.ClassSpec{Ranges: rng09, Inverted: true})), gast.Dot()), gast.S(gast.NotE(gast.NotE(inv("q"))), gast.Dot()), gast.L("q"))))),
 		// recovery expressions that are rules used nowhere else and that reference further rules; an
 		// inline recovery expression made of rule references; a leaf rule used both as recovery
 		// expression and in an ordinary position of the same host
